@@ -20,8 +20,8 @@ SPECDIR = os.path.join(vf.SPEC, "air")
 
 META = dict(
     technique="TLC exploration of the integer model of conjectured security over the full option grid (invariant + action property), full-grid agreement replay against the real code, and TLC trace validation of recorded conjectured/proven estimate tables and accept/reject decisions",
-    text="Bounds (<= collision resistance, < extension field bits) and monotonicity in queries, grinding and extension degree are model-checked on all 1.59 M option tuples x field bits {62,64,128} x collision resistance {96,124,128} of the integer model, whose value is compared with the real conjectured_security() on every grid point; independently of any formula, TLC validates the same facts plus the is_at_least / validate(MinConjecturedSecurity|MinProvenSecurity) decision rule on tables recorded from the real code (3 x grinding x 255 entries per cell, conjectured and proven ldr/udr) for seeded TLC-chosen cells (blowup, field, hasher, trace length 2^3..2^22, constraint count, width, FRI parameters, batching methods); OptionSet acceptance is replayed on 1 342 generated cases.",
-    note="Proven security is floating point: only relational facts on recorded values are decided, not agreement with the cited theorems. Monotonicity of proven security is checked along unit steps of the recorded axes within sampled cells, not on the whole grid. Proof objects are Proof::new_dummy() with the public context field replaced.",
+    text="Bounds (<= collision resistance, < extension field bits) and monotonicity in queries, grinding and extension degree are model-checked on all option tuples x field bits {7,9,16,31,62,64,128} x collision resistance {96,124,128} of the integer model (3.7 M states), whose value is compared with the real conjectured_security() on the grid for 18 encodings of the base field (built-in f62/f64/f128, custom StarkFields with minimal-length and zero-padded modulus bytes, contexts read from the wire with a zero-padded modulus); the field size is the bit length of the modulus VALUE computed by the specification, never what the code reports; independently of any formula, TLC validates the same facts plus the is_at_least / validate(MinConjecturedSecurity|MinProvenSecurity) decision rule on tables recorded from the real code (3 x grinding x 255 entries per cell, conjectured and proven ldr/udr) for seeded TLC-chosen cells plus one fixed cell per field encoding (blowup, field encoding, hasher, trace length 2^3..2^22, constraint count, width, FRI parameters, batching methods); OptionSet acceptance is replayed on 1 342 generated cases.",
+    note="Proven security is floating point: only relational facts on recorded values are decided, not agreement with the cited theorems. Monotonicity of proven security is checked along unit steps of the recorded axes within sampled cells, not on the whole grid. Proof objects are Proof::new_dummy() with the public context field replaced (Context::new over a StarkField type, or Context::read_from on serialized bytes).",
     design="7/C25")
 
 GS_QUICK = [0, 1, 2, 5, 10, 16, 20, 31, 32]
@@ -140,6 +140,9 @@ def describe(ev, clause, pos):
 
 def record_validate(ck, binary, cells, gs, name, mutate=None):
     events = record(ck, binary, cells, gs, name)
+    for c, e in zip(cells, events):
+        if not e.get("panic") and e["mod"] != c["mod"]:
+            raise vf.ToolError("the harness built a context announcing modulus bytes %s for the cell %s" % (e["mod"], c))
     ndec = sum(len(e["dec"]) for e in events)
     nvals = sum(3 * 3 * len(e["gs"]) * e["nq"] for e in events if not e.get("panic"))
     rejected = validate(ck, events, name, mutate)
@@ -165,7 +168,7 @@ def run(ck, tier, mutate=None):
     if not r.ok:
         raise vf.ToolError("the integer model of conjectured security violates the property (specification bug or "
                            "a defect of the transcribed formula): %s" % r.error)
-    ck.require(r.distinct > 1500000, "grid exploration too small: %d states" % r.distinct)
+    ck.require(r.distinct > 3500000, "grid exploration too small: %d states" % r.distinct)
     # (2) agreement of the model with the real code on the grid
     r = vf.tlc("GenSecurity.tla", "GenSecurityLines%s.cfg" % ("_thorough" if thorough else ""), cwd=SPECDIR,
                workers=4, timeout=1200)
@@ -181,16 +184,21 @@ def run(ck, tier, mutate=None):
                % (drift, len(lines), json.dumps(mism[0]["detail"])))
         ck.part("model-agreement", drift_example=mism[0]["detail"])
     # (3) the gate: record -> validate on TLC-chosen cells
-    ncell = 80 if thorough else 20
+    ncell = 60 if thorough else 12
     r = vf.tlc("GenSecurity.tla", "GenSecurityCells.cfg", cwd=SPECDIR, workers=1, simulate=ncell, depth=13,
                seed=ck.seed, timeout=600)
     ck.add_tlc("gen-cells", r)
     cells = r.tagged("REPLAY")
     ck.require(len(cells) >= ncell - 2, "too few cells: %d" % len(cells))
-    # corner cells are always present
-    cells += [dict(b=2, fb=62, cr=96, ll=3, nc=1, w=1, fold=2, rem=0, bc=0, bd=0, end=0),
-              dict(b=128, fb=128, cr=128, ll=22, nc=1000, w=255, fold=16, rem=255, bc=1, bd=2, end=0),
-              dict(b=4, fb=64, cr=128, ll=20, nc=100, w=2, fold=2, rem=127, bc=0, bd=0, end=0)]
+    # always present: one cell per base-field encoding (built-in fields, custom StarkFields with minimal or
+    # zero-padded modulus bytes, contexts read from the wire with a zero-padded modulus) and three grid corners
+    r = vf.tlc("GenSecurity.tla", "GenSecurityFixedCells.cfg", cwd=SPECDIR, workers=1, timeout=600)
+    ck.add_tlc("gen-fixed-cells", r)
+    fixed = r.tagged("REPLAY")
+    ck.require(len(fixed) >= 21 and len(set(c["fld"] for c in fixed)) >= 18
+               and any(len(c["mod"]) * 8 - c["fbits"] >= 8 for c in fixed),
+               "fixed cells do not cover the field encodings (zero-padded moduli): %d" % len(fixed))
+    cells += fixed
     gs = GS_ALL if thorough else GS_QUICK
     events = record_validate(ck, binary, cells, gs, "record", mutate)
     ev = events[0]
@@ -211,7 +219,8 @@ def run(ck, tier, mutate=None):
     ck.sample(oc[len(oc) // 2])
     run_engine(ck, binary, "security-optsets", "optsets", oc,
                lambda d: {"engine": "security-optsets", "lines": [oc[d["i"]]], "detail": d["detail"]})
-    ck.bounds = {"model_grid": "queries 1..255 x blowup {2..128} x grinding 0..32 x extension 1..3 x field bits {62,64,128} x collision resistance {96,124,128}",
+    ck.bounds = {"model_grid": "queries 1..255 x blowup {2..128} x grinding 0..32 x extension 1..3 x field bits {7,9,16,31,62,64,128} x collision resistance {96,124,128}",
+                 "field_encodings": sorted(set(c["fld"] for c in cells)),
                  "agreement_lines": len(lines), "recorded_cells": len(cells), "grinding_axis": gs, "queries_axis": "1..255",
                  "cell_parameters": "trace length 2^{3..22}, constraints {1..1000}, width {1..255}, folding {2,4,8,16}, remainder degree {0..255}, batching {linear, algebraic, horner}^2"}
     ck.exhaustive = (drift == 0)
